@@ -399,11 +399,28 @@ impl Execute for ast::Pipeline {
         // Update exit status.
         shell.set_last_exit_status(result.exit_code.into());
 
+        // A brace group, conditional, loop or case command only hands on the status of the
+        // last command run inside it, which has already been checked (or was exempt) where
+        // it ran; errexit and the ERR trap do not apply to that status a second time.
+        let is_errexit_point = !matches!(
+            self.seq.as_slice(),
+            [ast::Command::Compound(
+                ast::CompoundCommand::BraceGroup(_)
+                    | ast::CompoundCommand::IfClause(_)
+                    | ast::CompoundCommand::ForClause(_)
+                    | ast::CompoundCommand::ArithmeticForClause(_)
+                    | ast::CompoundCommand::WhileClause(_)
+                    | ast::CompoundCommand::UntilClause(_)
+                    | ast::CompoundCommand::CaseClause(_),
+                _
+            )]
+        );
+
         // Fire the ERR trap if the pipeline failed in a non-conditional context.
         // We reuse `suppress_errexit` here because bash suppresses the ERR trap in
         // exactly the same contexts it suppresses errexit (conditionals, `!`-prefixed
         // pipelines, etc.).
-        if !result.is_success() && !params.suppress_errexit && !self.bang {
+        if !result.is_success() && !params.suppress_errexit && !self.bang && is_errexit_point {
             if shell.traps().handles(crate::traps::TrapSignal::Err) {
                 shell
                     .invoke_trap_handler(crate::traps::TrapSignal::Err, &params)
@@ -412,7 +429,7 @@ impl Execute for ast::Pipeline {
         }
 
         // Apply errexit if not suppressed (and not negated)
-        if !params.suppress_errexit && !self.bang {
+        if !params.suppress_errexit && !self.bang && is_errexit_point {
             shell.apply_errexit_if_enabled(&mut result);
         }
 
